@@ -373,6 +373,7 @@ def rule_consumers(ctx, R):
             # adaptor form: `(0..self.count()).fold(Vec::new(), |mut acc, _| { recv ..; acc })` / for_each / map
             from lib import all_closures, adaptor_of_closure, subst_upvars
             F = ctx.F
+            handled = False
             for cb in all_closures(F, ga):
                 crs = cb.find_calls(RECV)
                 other += [c for c in cb.find_calls() if c.callee.startswith(
@@ -381,6 +382,7 @@ def rule_consumers(ctx, R):
                 if not crs:
                     continue
                 ctx.read(cb)
+                handled = True
                 pb, ac = adaptor_of_closure(F, ga, cb)
                 n += 1
                 ctx.check(len(crs) == 1 and not other, R, ga, 'get_all:blocking-recv',
@@ -412,7 +414,7 @@ def rule_consumers(ctx, R):
                           'one step over the expected chunks receives %s times' % (r,))
                 n += 1
                 ctx.ok(R, ga, 'get_all:single-loop-exit', 'an adaptor over 0..count() has no early exit')
-            recvs_done = True
+            recvs_done = handled
         else:
             recvs_done = False
         n += 1 if not recvs_done else 0
